@@ -11,6 +11,7 @@
      1305 a request the generator built as malformed was neither invalid on the pre-state nor rejected, and changed the
           accounting although its target did not exist (sanity of the malformed stream; never expected)
      1350 = 1302 inside the window of finding C13-foreign-update-other-node (DESIGN 7 #12)
+     1351 = 1303 inside the same window (the moved foreign allocation is not rejected)
      1353 = 1304 inside the window of finding C04-rejected-app-sets-queue-limits
    correspondence (model Core/Guard.guard against the implementation, every allocation / node / application request):
      1391 the guards refuse the request but the implementation did not reject it
@@ -44,7 +45,7 @@ Definition c13_step (idx : N) (pre : ostate) (st : ostep) : list (N * N) :=
   flag idx 1301 (negb (st_panic st)) ++
   (if st_panic st then [] else
    (if negb inv || same then [] else [(idx, if window_foreign_move pre st then 1350 else 1302)]) ++
-   flag idx 1303 (negb (inv && has_answer op) || rej) ++
+   (if negb (inv && has_answer op) || rej then [] else [(idx, if window_foreign_move pre st then 1351 else 1303)]) ++
    (if negb rej || inv || same then [] else [(idx, if window_rejected_limits pre st then 1353 else 1304)]) ++
    flag idx 1305 (negb (st_malformed st) || inv || rej || same ||
                   match op with OpAppAdd _ _ _ _ _ _ _ _ _ | OpNodeAdd _ _ _ => true | _ => false end) ++
